@@ -77,4 +77,43 @@ theorem cex_previous_year :
     parseFirst gadj colFmts fnow [68, 101, 99, 32, 49, 49, 32, 49, 51, 58, 49, 52, 58, 49, 53]
       = .ok 57 ⟨2025, 12, 11, 13, 14, 15, 0, .dflt⟩ := by decide +kernel
 
+/-! F-C05-901 (registered by C05; no second id) — the LQL side of the mechanism of F69 / F-C20-901: `parseLqlDateTime` hands the
+literal to `Format.Parse`, which finds a date ANYWHERE in the text and ignores the rest. `C20_lql` / `C20_lql_padded` speak about the
+renderings of an instant in a format of the LQL list (blank-padded at most); the literals below are none, and what the property's
+spirit demands of them — rejected, or read fully — is `C20_lql_strict`, which is false on the current code. -/
+
+def wFrac : Bytes := [50, 48, 49, 57, 45, 48, 49, 45, 48, 50, 32, 49, 50, 58, 48, 48, 58, 48, 48, 46, 57, 48, 48]
+def wTrail : Bytes := [50, 48, 49, 57, 45, 48, 49, 45, 48, 50, 32, 49, 50, 58, 48, 48, 58, 48, 48, 32, 116, 114, 97, 105, 108, 105, 110, 103]
+def wLead : Bytes := [120, 50, 48, 49, 57, 45, 48, 49, 45, 48, 50, 32, 49, 50, 58, 48, 48, 58, 48, 48]
+def wCore : Bytes := [50, 48, 49, 57, 45, 48, 49, 45, 48, 50, 32, 49, 50, 58, 48, 48, 58, 48, 48]
+
+/-- **F-C05-901 on the model**: `2019-01-02 12:00:00.900` as an LQL literal is 12:00:00.000 — the LQL list has no zoneless `.SSS`
+format, `YYYY-MM-DD HH:mm:ss` (49) claims the prefix and the fraction is ignored (the collector list reads the same text with its
+format 42: 900 ms); `2019-01-02 12:00:00 trailing` and `x2019-01-02 12:00:00` are accepted, the rest of the literal ignored -/
+theorem cex_lql_uncovered_text :
+    parseLql gcfg lqlFmts fnow wFrac = .abs 49 ⟨2019, 1, 2, 12, 0, 0, 0, .dflt⟩ ∧
+    parseFirst gadj colFmts fnow wFrac = .ok 42 ⟨2019, 1, 2, 12, 0, 0, 900000000, .dflt⟩ ∧
+    parseLql gcfg lqlFmts fnow wTrail = .abs 49 ⟨2019, 1, 2, 12, 0, 0, 0, .dflt⟩ ∧
+    parseLql gcfg lqlFmts fnow wLead = .abs 49 ⟨2019, 1, 2, 12, 0, 0, 0, .dflt⟩ := by decide +kernel
+
+/-- what a strict reading of the LQL clause demands: an absolute literal that is accepted is matched AS A WHOLE (after the blank
+trim) by the expression of the format that claims it — nothing of the literal is left uncovered -/
+def C20_lql_strict : Prop :=
+  ∀ (now : Now) (txt : Bytes) (j : Nat) (c : Civil), parseLql gcfg lqlFmts now txt = .abs j c →
+    ∃ cf r, lqlFmts[j]? = some cf ∧ cf.rx = some r ∧ findG cf.guard r (trimBlanks txt) = some (trimBlanks txt)
+
+theorem wTrail_facts :
+    (lqlFmts[49]?.bind (fun cf => cf.rx.bind (fun r => findG cf.guard r (trimBlanks wTrail)))) = some wCore ∧
+    trimBlanks wTrail ≠ wCore := by decide +kernel
+
+/-- **the strict LQL clause is false on the current code** (F-C05-901): `2019-01-02 12:00:00 trailing` is accepted although the
+claiming format's expression covers only the first 19 bytes -/
+theorem C20_lql_strict_fails : ¬ C20_lql_strict := by
+  intro h
+  obtain ⟨cf, r, hcf, hr, hf⟩ := h fnow wTrail 49 _ cex_lql_uncovered_text.2.2.1
+  obtain ⟨e, hne⟩ := wTrail_facts
+  rw [hcf] at e
+  simp only [Option.bind_some, hr, hf, Option.some.injEq] at e
+  exact hne e
+
 end Logrange.Props.C20
